@@ -46,7 +46,7 @@ def streams(tier, seed):
     rng = random.Random(seed)
     nrand = 260 if tier == "quick" else 10000
     rand = [W.gen_case(rng, size=4) for _ in range(nrand)]
-    files = [W.gen_case(rng, size=3, source="file") for _ in range(12 if tier == "quick" else 300)]
+    files = [W.gen_case(rng, size=3, source="file") for _ in range(40 if tier == "quick" else 600)]
     small = list(small_scope(2 if tier == "quick" else 3)) + list(small_scope(2 if tier == "quick" else 3, NAMES_NFD))
     if tier == "quick":
         three = list(small_scope(3))[72:]
